@@ -5,6 +5,7 @@ package main
 // every query is (push)(assert ...)*(check-sat)[(get-value ...)](pop).
 
 import (
+	"context"
 	"bufio"
 	"fmt"
 	"io"
@@ -467,4 +468,25 @@ func Standalone(asserts []*Term) string {
 	}
 	sb.WriteString("(check-sat)\n")
 	return sb.String()
+}
+
+// RunScript feeds a standalone script to a fresh solver process and returns its first verdict.
+func RunScript(argv []string, script string, timeout time.Duration) Result {
+	ctx, cancel := context.WithTimeout(context.Background(), timeout)
+	defer cancel()
+	cmd := exec.CommandContext(ctx, argv[0], argv[1:]...)
+	cmd.Stdin = strings.NewReader("(set-logic ALL)\n" + script)
+	out, _ := cmd.Output()
+	for _, l := range strings.Split(string(out), "\n") {
+		switch strings.TrimSpace(l) {
+		case "sat":
+			return Sat
+		case "unsat":
+			return Unsat
+		}
+		if strings.Contains(l, "(error") {
+			return Unknown
+		}
+	}
+	return Unknown
 }
